@@ -31,7 +31,6 @@ Qed.
 
 Section Term.
 Variable c : cfg.
-Hypothesis Hdone : donech c = true.
 Hypothesis Hnorep : norepeat c.
 Notation n := (nsteps c).
 Notation step := (step c).
@@ -96,7 +95,8 @@ Ltac use_after :=
   try match goal with
   | |- context [after c ?s ?i ?ok ?e] =>
       let H := fresh "HAC" in let sa := fresh "sa" in let E := fresh "Esa" in
-      pose proof (after_cases c Hdone Hnorep s i ok e) as H; remember (after c s i ok e) as sa eqn:E; clear E; destruct H
+      pose proof (after_cases c Hnorep s i ok e) as H; remember (after c s i ok e) as sa eqn:E; clear E; destruct H;
+      try (let F := fresh "Hfp" in destruct (fphase_cases c) as [F|F]; rewrite F in * )
   end.
 
 (* every label strictly decreases the measure *)
@@ -112,7 +112,6 @@ Proof.
               pose proof (coherent_none_idle _ (HA _) Hst0) as Hidle; rewrite H in * end).
   all: try (match goal with H : st (nd _ ?i) = NNone |- _ => pose proof (coherent_none_idle _ (HA i) H) as Hidle end).
   all: cbn [pcw length].
-  all: rewrite ?Hdone.
   all: try lia.
   all: try (match goal with |- context [sum_list (fun j => nodew j (if j =? ?i then ?y else _)) _] =>
               let Hu := fresh "Hu" in
@@ -125,11 +124,6 @@ Proof.
       pose proof (sum_nodew_upd s i (with_st (nd s i) m) ltac:(assumption)) as Hu;
       unfold nodew in Hu at 2 4; unfold phw in Hu; nsimpl; rewrite Hidle, H1 in Hu;
       destruct (dep_mark_values c s d m M); subst m; lia end.
-  - (* WStaleFinish *)
-    match goal with |- context [sum_list (fun j => nodew j (if j =? ?i then ?y else _)) _] =>
-      pose proof (sum_nodew_upd s i y ltac:(assumption)) as Hu end.
-    unfold nodew in Hu at 2 4. unfold phw in Hu. nsimpl. rewrite M in Hu.
-    destruct (ph (nd s i)); destruct (st (nd s i)); lia.
   - (* SigFlag *) rewrite app_length, seq_length. nia.
   - (* SigNode *)
     match goal with |- context [sum_list (fun j => nodew j (if j =? ?i then ?y else _)) _] =>
@@ -145,7 +139,7 @@ Proof.
   revert s. induction ls as [|l ls IH]; simpl; intros s HI Hr.
   - injection Hr as <-. lia.
   - destruct (step s l) eqn:Hs; [|discriminate].
-    pose proof (step_measure _ _ _ HI Hs). pose proof (IH _ (inv_step c Hdone Hnorep _ _ _ HI Hs) Hr). lia.
+    pose proof (step_measure _ _ _ HI Hs). pose proof (IH _ (inv_step c Hnorep _ _ _ HI Hs) Hr). lia.
 Qed.
 
 Theorem all_executions_finite ls s : run c (init c) ls = Some s -> length ls <= bound.
@@ -182,11 +176,10 @@ Proof.
   all: try (intros X Y; rewrite ?M in *; try discriminate; try congruence).
   all: try (intros X Y; destruct (st (nd s i)); discriminate).
   all: try (intros Y; intuition congruence).
-  - exfalso. rewrite (coherent_none_idle _ (HA i) H1) in X. discriminate.
-  - exfalso. intuition congruence.
-  - exfalso. destruct (st (nd s i)); discriminate.
-  - exfalso. destruct (st (nd s i)); discriminate.
-  - apply HF. discriminate.
+  all: try (exfalso; destruct (st (nd s i)); discriminate).
+  all: try (exfalso; intuition congruence; fail).
+  all: try (apply HF; discriminate).
+  exfalso. rewrite (coherent_none_idle _ (HA i) H1) in X. discriminate.
 Qed.
 
 Lemma step_gr s l s' : Inv c s -> GR s -> step s l = Some s' -> GR s'.
